@@ -93,7 +93,8 @@ type c21Version struct {
 }
 
 type c21Machine struct {
-	rt         *rapid.T
+	rt         *rapid.T // source of draws (nil in the scripted scenario)
+	ft         c21Fataler
 	db         *Database
 	versions   map[common.Hash]*c21Version
 	order      []common.Hash // creation order of distinct roots
@@ -105,7 +106,11 @@ type c21Machine struct {
 	indexed    map[common.Hash]bool
 	block      uint64
 	trace      []string
-	orphans    int // cached unreachable nodes tolerated because persistence cut their bookkeeping
+	orphans    int // cached unreachable nodes whose referrer was persisted (known-finding class)
+
+	knownOrphan bool   // vs.Known(c21TestName, c21OrphanClass): tolerate exactly that class
+	excluded    func() // counts one excluded case in the statistics
+	excludedYet bool
 
 	sharedDeref   bool // a root was dereferenced while sharing a node with another live root
 	capThenCommit bool // a commit needed a node that an earlier Cap had evicted
@@ -114,8 +119,27 @@ type c21Machine struct {
 	reinjected    bool // a node evicted to disk was inserted again
 }
 
+type c21Fataler interface {
+	Fatalf(string, ...any)
+}
+
+const (
+	c21TestName    = "TestVerifC21Machine"
+	c21OrphanClass = "orphan-child-of-persisted-parent"
+)
+
+func c21New(ft c21Fataler, rt *rapid.T, st *vs.S) *c21Machine {
+	return &c21Machine{
+		rt: rt, ft: ft, db: New(rawdb.NewMemoryDatabase(), nil),
+		versions: map[common.Hash]*c21Version{}, refs: map[common.Hash]int{}, committed: map[common.Hash]bool{},
+		storCache: map[string]*reftrie.Result{}, capFlushed: map[common.Hash]bool{},
+		parents: map[common.Hash]map[common.Hash]struct{}{}, indexed: map[common.Hash]bool{},
+		knownOrphan: vs.Known(c21TestName, c21OrphanClass), excluded: st.Excluded,
+	}
+}
+
 func (m *c21Machine) fatalf(format string, a ...any) {
-	m.rt.Fatalf("%s\ntrace: %s", fmt.Sprintf(format, a...), strings.Join(m.trace, " "))
+	m.ft.Fatalf("%s\ntrace: %s", fmt.Sprintf(format, a...), strings.Join(m.trace, " "))
 }
 
 func c21AccountRLP(nonce uint64, root common.Hash) []byte {
@@ -308,6 +332,11 @@ func (m *c21Machine) opUpdate() {
 	} else {
 		nw, note = m.mutate(parentWorld)
 	}
+	m.applyUpdate(parentRoot, parentWorld, nw, note)
+}
+
+// applyUpdate performs the transition parentWorld -> nw on top of parentRoot.
+func (m *c21Machine) applyUpdate(parentRoot common.Hash, parentWorld, nw c21World, note string) {
 	wantRoot, nodes, sroots := m.reference(nw)
 	_, _, parentSroots := m.reference(parentWorld)
 
@@ -371,7 +400,7 @@ func (m *c21Machine) opUpdate() {
 			}
 			sroot, set := st.Commit(false)
 			if sroot != sroots[k] {
-				rt.Fatalf("VERIF-HARNESS-BUG: storage root from geth's trie %x differs from the reference %x (C06 territory)", sroot, sroots[k])
+				m.ft.Fatalf("VERIF-HARNESS-BUG: storage root from geth's trie %x differs from the reference %x (C06 territory)", sroot, sroots[k])
 			}
 			if set != nil {
 				if err := merged.Merge(set); err != nil {
@@ -387,7 +416,7 @@ func (m *c21Machine) opUpdate() {
 	}
 	root, set := at.Commit(true)
 	if root != wantRoot {
-		rt.Fatalf("VERIF-HARNESS-BUG: account root from geth's trie %x differs from the reference %x (C06 territory)", root, wantRoot)
+		m.ft.Fatalf("VERIF-HARNESS-BUG: account root from geth's trie %x differs from the reference %x (C06 territory)", root, wantRoot)
 	}
 	if set != nil {
 		if err := merged.Merge(set); err != nil {
@@ -471,6 +500,10 @@ func (m *c21Machine) opDereference() {
 	if rapid.IntRange(0, 2).Draw(m.rt, "derefAll") == 0 {
 		times = m.refs[r]
 	}
+	m.derefRoot(r, times)
+}
+
+func (m *c21Machine) derefRoot(r common.Hash, times int) {
 	if m.refs[r] == times {
 		for _, o := range m.referencedRoots() {
 			if o == r {
@@ -498,6 +531,11 @@ func (m *c21Machine) opDereference() {
 func (m *c21Machine) opCap() {
 	_, size := m.db.Size()
 	limit := []common.StorageSize{0, 1, size / 4, size / 2, size - 1, size, size * 2}[rapid.IntRange(0, 6).Draw(m.rt, "capLimit")]
+	m.capTo(limit)
+}
+
+func (m *c21Machine) capTo(limit common.StorageSize) {
+	_, size := m.db.Size()
 	before := map[common.Hash]struct{}{}
 	for h := range m.db.dirties {
 		before[h] = struct{}{}
@@ -526,7 +564,10 @@ func (m *c21Machine) opCommit() {
 	if len(roots) == 0 {
 		return
 	}
-	r := roots[rapid.IntRange(0, len(roots)-1).Draw(m.rt, "commitRoot")]
+	m.commitRoot(roots[rapid.IntRange(0, len(roots)-1).Draw(m.rt, "commitRoot")])
+}
+
+func (m *c21Machine) commitRoot(r common.Hash) {
 	for h := range m.versions[r].nodes {
 		if m.capFlushed[h] {
 			if _, cached := m.db.dirties[h]; !cached {
@@ -648,6 +689,18 @@ func (m *c21Machine) unexplainedOrphans(reachable map[common.Hash]struct{}) (bad
 	return bad, tolerated
 }
 
+// firstOrphan returns the smallest cached hash that no referenced root reaches.
+func (m *c21Machine) firstOrphan(reachable map[common.Hash]struct{}) common.Hash {
+	var hs []common.Hash
+	for h := range m.db.dirties {
+		if _, ok := reachable[h]; !ok {
+			hs = append(hs, h)
+		}
+	}
+	sort.Slice(hs, func(i, j int) bool { return bytes.Compare(hs[i][:], hs[j][:]) < 0 })
+	return hs[0]
+}
+
 // explain lists the nodes that refer to h and where they are now.
 func (m *c21Machine) explain(h common.Hash) string {
 	var sb strings.Builder
@@ -710,8 +763,21 @@ func (m *c21Machine) check() {
 		m.fatalf("garbage: node %x (parents=%d, of %s) is cached, unreachable from every referenced root, and none of the nodes referring to it was ever persisted (%d such nodes)\n%s",
 			h, db.dirties[h].parents, owner, len(bad), m.explain(h))
 	}
-	if tolerated > m.orphans {
-		m.orphans = tolerated
+	if tolerated > 0 {
+		// Known-finding class: the statement forbids these nodes too; they are only
+		// tolerated while known_findings.json lists the class for this test.
+		if !m.knownOrphan {
+			h := m.firstOrphan(reachable)
+			m.fatalf("garbage [class %s]: node %x (parents=%d) stays cached although no referenced root reaches it; a node referring to it was written to disk (Cap/Commit) without releasing its count, so no dereference can collect it (%d such nodes)\n%s",
+				c21OrphanClass, h, db.dirties[h].parents, tolerated, m.explain(h))
+		}
+		if !m.excludedYet {
+			m.excludedYet = true
+			m.excluded()
+		}
+		if tolerated > m.orphans {
+			m.orphans = tolerated
+		}
 	}
 	// (3) reported size matches the cached contents
 	var want common.StorageSize
@@ -756,15 +822,10 @@ func (m *c21Machine) check() {
 
 func TestVerifC21Machine(t *testing.T) {
 	st := vs.New("C21", t)
+	c21OrphanScenario(t, st)
 	vs.Check(t, 1, func(rt *rapid.T) {
 		c := st.Case()
-		disk := rawdb.NewMemoryDatabase()
-		m := &c21Machine{
-			rt: rt, db: New(disk, nil),
-			versions: map[common.Hash]*c21Version{}, refs: map[common.Hash]int{}, committed: map[common.Hash]bool{},
-			storCache: map[string]*reftrie.Result{}, capFlushed: map[common.Hash]bool{},
-			parents: map[common.Hash]map[common.Hash]struct{}{}, indexed: map[common.Hash]bool{},
-		}
+		m := c21New(rt, rt, st)
 		maxSteps := 28
 		if vs.Thorough() {
 			maxSteps = 45
@@ -811,7 +872,7 @@ func TestVerifC21Machine(t *testing.T) {
 			c.Class("evicted node inserted again")
 		}
 		if m.orphans > 0 {
-			c.Class("tolerated orphan (a parent was persisted)")
+			c.Class(c21OrphanClass)
 		}
 		for _, op := range []string{"cap", "commit", "reference"} {
 			if counts[op] > 0 {
@@ -823,4 +884,53 @@ func TestVerifC21Machine(t *testing.T) {
 			return map[string]any{"ops": m.trace, "versions": len(m.order), "cached_nodes_at_end": len(m.db.dirties)}
 		})
 	})
+}
+
+// c21OrphanScenario is the minimal scripted history of the known-finding class
+// "orphan-child-of-persisted-parent" (one account A with one storage slot):
+//
+//	U v0 = {A: nonce 0, slot=1}   K v0          (everything on disk, cache empty)
+//	U v1 = v0 + nonce             (new account leaf L1 = root; storage root S is on disk, so reference(S, L1) is skipped)
+//	U v2 = v1 + slot=2            (new storage S2, new leaf L2)
+//	U v1 again = v2 + slot=1      (L1 is still cached and is not inserted again; S is inserted anew and now
+//	                               reference(S, L1) counts L1 as its parent)
+//	Cap(size-1)                   (evicts exactly the oldest node L1 to disk; S keeps parents=1)
+//	D v0, D v1 x2, D v2           (L1 is no longer cached, so nothing ever releases S; v0 and v1 were the only
+//	                               states containing S and both have lost all their references)
+//
+// It runs with the same invariants after every step, so it fails with the class
+// label unless the class is listed as known, and it is counted as excluded then.
+func c21OrphanScenario(t *testing.T, st *vs.S) {
+	c := st.Case()
+	m := c21New(t, nil, st)
+	a, slot := c21AcctKeys[0], c21SlotKeys[0]
+	world := func(nonce uint64, val []byte) c21World {
+		return c21World{a: &c21Acct{nonce: nonce, storage: map[string][]byte{slot: val}}}
+	}
+	w0, w1, w2 := world(0, c21Values[0]), world(1, c21Values[0]), world(1, c21Values[1])
+	step := func(f func()) { f(); m.check() }
+	step(func() { m.applyUpdate(types.EmptyRootHash, c21World{}, w0, "scripted v0") })
+	r0 := m.order[0]
+	step(func() { m.commitRoot(r0) })
+	step(func() { m.applyUpdate(r0, w0, w1, "scripted nonce") })
+	r1 := m.order[1]
+	step(func() { m.applyUpdate(r1, w1, w2, "scripted slot=2") })
+	r2 := m.order[2]
+	step(func() { m.applyUpdate(r2, w2, w1.clone(), "scripted back to v1") })
+	if m.refs[r1] != 2 {
+		t.Fatalf("VERIF-HARNESS-BUG: scripted scenario expected 2 references on v1, model has %d", m.refs[r1])
+	}
+	_, size := m.db.Size()
+	step(func() { m.capTo(size - 1) })
+	step(func() { m.derefRoot(r0, 1) }) // v0 shares S; it was committed, its reference is released too
+	step(func() { m.derefRoot(r1, 2) })
+	step(func() { m.derefRoot(r2, 1) })
+	c.Class("scripted " + c21OrphanClass)
+	if m.orphans > 0 {
+		c.Class(c21OrphanClass)
+	} else {
+		st.Note("scripted scenario for %s left no orphan: the known finding no longer reproduces", c21OrphanClass)
+	}
+	c.NonTrivial(true, "scripted:"+strings.Join(m.trace, " "))
+	c.Sample(true, func() any { return map[string]any{"ops": m.trace, "scripted": true, "orphans": m.orphans} })
 }
